@@ -149,7 +149,7 @@ func (r *Run) genSeq06(idx int, depthOK bool) []rule06 {
 		case k < 9:
 			rl.act = "A"
 		case k < 10:
-			rl.act = fmt.Sprintf("R%d", []int{2, 3, 5}[r.Rng.Intn(3)])
+			rl.act = fmt.Sprintf("R%d", []int{2, 3, 5, 5, 0, 4095}[r.Rng.Intn(6)])
 		case k < 12:
 			rl.act = "r"
 		case k < 15 && idx > 0:
@@ -348,6 +348,9 @@ func runC06(r *Run) {
 					ra.Exec = "accept"
 				case 'R':
 					ra.Exec = "reject " + a[1:]
+					if a[1:] == "5" && r.Rng.Intn(2) == 0 {
+						ra.Exec = "reject" // no argument: REFUSED
+					}
 				case 'r':
 					ra.Exec = "return"
 				case 'J':
